@@ -18,7 +18,8 @@ RULE = (
     'with every operation kind, a third of them with dynamic reordering '
     'enabled at a tiny threshold (reorderings, each starting with a '
     'collection, that the library begins by itself in the middle of '
-    'operations on held operands). After every step: count == in-edges + '
+    'operations on held operands), and with releases at count zero (a '
+    'documented no-op: warning, no effect). After every step: count == in-edges + '
     'ledger for every node (M4), no held node or descendant missing, '
     'reduced/ordered/unique (M1), cache entries mention only stored nodes '
     'and keep the meaning they had when first seen (M5 temporal), held '
@@ -59,7 +60,7 @@ def plan(tier, seed):
         require=['sequences', 'steps', 'quiescent_checks', 'gc_calls',
                  'gc_freed_nodes', 'node_numbers_reused',
                  'gc_rooted_calls', 'swap_calls', 'cache_entries_watched',
-                 'dynamic_history_steps'],
+                 'dynamic_history_steps', 'releases_at_count_zero'],
         assumptions=['the harness is the only holder of external '
                      'references (its ledger is the external count)',
                      'truth-table denotation from BDD._succ'],
@@ -218,7 +219,8 @@ def _random(ctx, spec, rng, names, dynamic):
     menu = dict(build=6, apply=10, apply_quant=1, ite=5, quantify=3,
                 let_const=2, let_rename=2, let_compose=2, cube=1, var=1,
                 add_expr=2, dup=3, drop=8, drop_many=2, gc=6, gc_rooted=3,
-                swap=4, sift=1, reorder_to=1, pairs=1, clone=1, **{'not': 1})
+                swap=4, sift=1, reorder_to=1, pairs=1, clone=1,
+                release_at_zero=2, **{'not': 1})
     if dynamic:
         # (the rooted-collection step keeps an unreferenced result across
         # another operation, which dynamic reordering may legitimately
